@@ -11,15 +11,23 @@ let fdone = c02_ABORT_DONE_FIXED
 let astep = astep fixed fdone
 let fw_step = fw_step fdone
 let st : aio option array = Array.make naio None
-let tmo : int array = Array.make naio (-1)
-let now = ref 0
+(* the deadline configuration of each aio (Core/AioDeadline.v), in the form the source has now *)
+let dl_step = dl_step c02_DL_SET_CLEARS c02_DL_FINISH_CLEARS c02_DL_START_CONSUMES
+let dlc : dl array = Array.make naio dl_init
+let now0 = 1000000
+let now = ref now0
+let z_of_int (i : int) : z = if i = 0 then Z0 else if i > 0 then Zpos (pos_of_int i) else Zneg (pos_of_int (- i))
+let dcfg (k : int) (o : dop) : dout = let (c', x) = dl_step dlc.(k) o in dlc.(k) <- c'; x
+let fin_impl : bool array = Array.make naio false     (* nni_aio_finish_impl ran since the last look *)
 let cbs : (int * int) list ref = ref []
 
 (* run the library's own threads to quiescence: continuations in thread order, then callbacks *)
 let rec settle (k : int) (s : aio) : aio =
   let rec first_run i =
     if i >= List.length s.threads then None
-    else match astep s (LRun (nat_of_int i)) with Some s' -> Some s' | None -> first_run (i + 1) in
+    else match astep s (LRun (nat_of_int i)) with
+      | Some s' -> (match List.nth s.threads i with PFinish _ :: _ -> fin_impl.(k) <- true | _ -> ()); Some s'
+      | None -> first_run (i + 1) in
   match first_run 0 with
   | Some s' -> settle k s'
   | None ->
@@ -43,7 +51,12 @@ let observe (pfx : string) =
 let step (k : int) (l : alabel) : bool =
   match st.(k) with
   | None -> false
-  | Some s -> (match astep s l with Some s' -> st.(k) <- Some (settle k s'); true | None -> false)
+  | Some s -> (match astep s l with
+               | Some s' ->
+                   st.(k) <- Some (settle k s');
+                   if fin_impl.(k) then (fin_impl.(k) <- false; ignore (dcfg k DFinish));
+                   true
+               | None -> false)
 
 let scripted () =
   try
@@ -52,7 +65,7 @@ let scripted () =
       match split_ws line with
       | [] -> ()
       | w :: _ when w.[0] = '#' -> ()
-      | "mark" :: k :: _ -> Array.fill st 0 naio None; Array.fill tmo 0 naio (-1); now := 0; cbs := []; print_endline ("mark " ^ k)
+      | "mark" :: k :: _ -> Array.fill st 0 naio None; Array.fill dlc 0 naio dl_init; now := now0; cbs := []; print_endline ("mark " ^ k)
       | "advance" :: ms :: _ ->
           now := !now + int_of_string ms;
           for k = 0 to naio - 1 do ignore (step k (LExpire (n_of_int !now))) done;
@@ -60,14 +73,19 @@ let scripted () =
       | op :: a :: rest ->
           let k = int_of_string (String.sub a 1 (String.length a - 1)) in
           (match op with
-           | "alloc" -> st.(k) <- Some aio_init; tmo.(k) <- (-1); observe "ok"
+           | "alloc" ->
+               (* nng_aio_alloc: nni_aio_init, then nng_aio_set_timeout(aio, NNG_DURATION_DEFAULT) *)
+               st.(k) <- Some aio_init; dlc.(k) <- dl_init; ignore (dcfg k (DSetTimeout (z_of_int (-2)))); fin_impl.(k) <- false; observe "ok"
            | _ when st.(k) = None -> observe "noaio"
-           | "tmo" -> tmo.(k) <- int_of_string (List.hd rest); observe "ok"
+           | "tmo" -> ignore (dcfg k (DSetTimeout (z_of_int (int_of_string (List.hd rest))))); observe "ok"
+           | "expire" -> ignore (dcfg k (DSetExpire (Some (n_of_int (max 0 (!now + int_of_string (List.hd rest))))))); observe "ok"
+           | "expnever" -> ignore (dcfg k (DSetExpire None)); observe "ok"
+           | "norm" -> ignore (dcfg k (DNormalize (z_of_int (int_of_string (List.hd rest))))); observe "ok"
            | ("begin" | "sleep") when (match st.(k) with Some s -> s.g_subs <> s.g_cbs | None -> false) -> observe "busy"
            | "begin" ->
                if rest <> [] then ignore (step k LReset);
-               let zero = tmo.(k) = 0 in
-               let dl = if tmo.(k) > 0 then Some (n_of_int (!now + tmo.(k))) else None in
+               let (zero, dl) = (match dcfg k (DStart (n_of_int !now)) with
+                                 | OStart VZero -> (true, None) | OStart (VDeadline t) -> (false, t) | _ -> (false, None)) in
                ignore (step k (LStart (zero, dl, false, false)));
                let started = (match st.(k) with Some s -> s.p_owns | None -> false) in
                observe (Printf.sprintf "started=%d" (if started then 1 else 0))
@@ -81,9 +99,9 @@ let scripted () =
                (* nni_sleep_aio: reset; expire_ok unless the aio's own timeout is shorter *)
                let ms = int_of_string (List.hd rest) in
                ignore (step k LReset);
-               let (ms', eok) = if tmo.(k) >= 0 && (ms < 0 || ms > tmo.(k)) then (tmo.(k), false) else (ms, true) in
-               let dl = if ms' < 0 then None else Some (n_of_int (!now + ms')) in
-               ignore (step k (LStart (false, dl, true, eok)));
+               let (zero, dl, eok) = (match dcfg k (DSleep (n_of_int !now, z_of_int ms)) with
+                                      | OSleep (VZero, e) -> (true, None, e) | OSleep (VDeadline t, e) -> (false, t, e) | _ -> (false, None, true)) in
+               ignore (step k (LStart (zero, dl, true, eok)));
                observe "ok"
            | "free" -> ignore (step k LStop); st.(k) <- None; observe "ok"
            | _ -> observe "badop")
@@ -121,7 +139,7 @@ let replay () =
   for k = 0 to naio - 1 do
     let a = Array.of_list (List.rev recs.(k)) in
     let cur = ref fw0 in
-    let skip = ref (-1) in
+    let skip_to = ref (-1) in
     let tk_of kind arg (logged : fw) = (match kind with
         | 1 -> Some (TStartOk (arg <> 0, logged.f_on_eq)) | 2 -> Some TStartStopped | 3 -> Some TStartAborted
         | 4 -> Some TStartTimeout | 5 -> Some (TFinish (n_of_int arg)) | 6 -> Some (TAbort (n_of_int arg))
@@ -129,23 +147,51 @@ let replay () =
         | 11 -> Some TExpireDone | 12 -> Some (TSleepCancel (n_of_int arg)) | 13 -> Some TReset
         | 14 -> Some TSleepSetup | 15 -> Some TExpireMark | 16 -> Some TExpireSkip | _ -> None) in
     Array.iteri (fun i (seq, kind, arg, logged) ->
-      if i = !skip then cur := logged else begin
+      if i <= !skip_to then cur := logged else begin
       let pre = !cur in
       let tk = tk_of kind arg logged in
       (* the records of nni_aio_reset / nni_sleep_aio are taken without eq_mtx: the snapshot may already
          contain the effect of the critical section whose record comes next *)
       let overtaken () =
-        (kind = 13 || kind = 14) && i + 1 < Array.length a &&
-        (let (_, k2, a2, l2) = a.(i + 1) in
-         match tk_of k2 a2 l2, tk with
-         | Some t2, Some t1 ->
-             (match fw_step t2 pre with
-              | Some mid -> (match fw_step t1 mid with
-                             | Some e -> let e = if kind = 14 then { e with f_expire_ok = logged.f_expire_ok } else e in
-                                         e = logged && (skip := i + 1; true)
-                             | None -> false)
-              | None -> false)
-         | _ -> false) in
+        (kind = 13 || kind = 14) &&
+        (match tk with
+         | None -> false
+         | Some t1 ->
+           (* the snapshot may contain the effects of the next m locked sections of this aio (m <= 3) *)
+           let ok = ref false in
+           for m = 1 to 3 do
+             if not !ok && i + m < Array.length a then begin
+               let mid = ref (Some pre) in
+               for j = i + 1 to i + m do
+                 let (_, k2, a2, l2) = a.(j) in
+                 mid := (match !mid, tk_of k2 a2 l2 with
+                         | Some st, Some t2 when k2 <> 13 && k2 <> 14 -> fw_step t2 st
+                         | _ -> None)
+               done;
+               (match !mid with
+                | Some st -> (match fw_step t1 st with
+                              | Some e -> let e = if kind = 14 then { e with f_expire_ok = logged.f_expire_ok } else e in
+                                          if e = logged then (ok := true; skip_to := i + m)
+                              | None -> ())
+                | None -> ())
+               ;
+               (* or: the unlocked writes all landed first and only the record was written late *)
+               if not !ok then begin
+                 let st = ref (fw_step t1 pre) in
+                 for j = i + 1 to i + m do
+                   let (_, k2, a2, l2) = a.(j) in
+                   st := (match !st, tk_of k2 a2 l2 with
+                          | Some s0, Some t2 when k2 <> 13 && k2 <> 14 -> fw_step t2 s0
+                          | _ -> None)
+                 done;
+                 (match !st with
+                  | Some e -> let e = if kind = 14 then { e with f_expire_ok = logged.f_expire_ok } else e in
+                              if e = logged then (ok := true; skip_to := i + m)
+                  | None -> ())
+               end
+             end
+           done;
+           !ok) in
       (* nni_aio_reset / nni_sleep_aio write a_abort, a_result, a_expire_ok, a_sleep without eq_mtx:
          a record next to one of them may show those four fields mid-update *)
       let near_unlocked =
